@@ -157,7 +157,7 @@ func qq_loop(xs []MalType) MalType {
 		elt := xs[i]
 		switch e := elt.(type) {
 		case List:
-			if starts_with(e.Val, "splice-unquote") {
+			if starts_with(e.Val, "splice-unquote") && len(e.Val) > 1 {
 				acc = NewList(Symbol{Val: "concat"}, e.Val[1], acc)
 				continue
 			}
@@ -175,7 +175,7 @@ func quasiquote(ast MalType) MalType {
 	case HashMap, Symbol:
 		return NewList(Symbol{Val: "quote"}, ast)
 	case List:
-		if starts_with(a.Val, "unquote") {
+		if starts_with(a.Val, "unquote") && len(a.Val) > 1 {
 			return a.Val[1]
 		} else {
 			return qq_loop(a.Val)
